@@ -69,6 +69,8 @@ impl<T: Sized> Drop for JoinHandle<T> {
                 futex_wait_fast(self.tsm.get_futex(), UNFINISHED);
                 #[cfg(feature = "verif-hooks")]
                 crate::verif::gate(crate::verif::DROP_BEFORE_FREE_BLOCK, self.tsm.0 as usize);
+                // Nobody will take the thread's return value, run its destructor
+                core::ptr::drop_in_place(self.tsm.value_mut::<T>());
                 self.tsm.dealloc();
             }
         }
@@ -319,6 +321,8 @@ where
                 sc::syscall!(SET_TID_ADDRESS, 0);
                 #[cfg(feature = "verif-hooks")]
                 crate::verif::gate(crate::verif::THREAD_BEFORE_FREE_BLOCK, tsm.0 as usize);
+                // Nobody will take the return value, run its destructor
+                core::ptr::drop_in_place(tsm.value_mut::<T>());
                 tsm.dealloc();
             }
             #[cfg(feature = "verif-hooks")]
